@@ -75,7 +75,8 @@ class ConstrainedProblem(Problem):
         return np.concatenate([orig_grad, np.zeros((num_slacks,))])
 
     def cons(self, x):
-        orig_cons = self.problem.cons(self.orig_vals(x))
+        # Copy in order not to modify the values returned by the underlying problem
+        orig_cons = np.copy(self.problem.cons(self.orig_vals(x)))
 
         num_slacks = len(self.slack_positions)
 
